@@ -1,23 +1,134 @@
-"""Native replay of solver counterexamples (DESIGN.md 2.4)."""
+"""Native replay of solver counterexamples (DESIGN.md 2.4).
+
+A failing harness is re-run with Kani's concrete playback: CBMC's satisfying assignment is turned
+into a `#[test]` that feeds exactly those bytes to the harness's `kani::any()` calls, and that test
+is compiled and run *natively* (ordinary rustc, dev profile, no stubs) against the same scratch
+copy of /repo.  Only a counterexample whose native run panics is reported as a VIOLATION; one that
+does not reproduce means the encoding or a stub is suspect and the run ends INCONCLUSIVE.
+"""
 import json
 import os
+import re
+import subprocess
 import time
 
 VERIF = os.path.dirname(os.path.dirname(os.path.abspath(__file__)))
 REPLAY_DIR = os.path.join(VERIF, "replays")
+MAX_REPLAYS = int(os.environ.get("VERIF_MAX_REPLAYS", "2"))
+_done = {"n": 0}
+
+
+def _sh(cmd, cwd, timeout, logfile):
+    env = dict(os.environ)
+    env["CARGO_NET_OFFLINE"] = "true"
+    env.pop("RUSTFLAGS", None)
+    with open(logfile, "ab") as lf:
+        lf.write(("\n$ " + " ".join(cmd) + "\n").encode())
+    try:
+        p = subprocess.run(cmd, cwd=cwd, env=env, stdout=subprocess.PIPE, stderr=subprocess.STDOUT, timeout=timeout)
+        out = p.stdout.decode(errors="replace")
+        rc = p.returncode
+    except subprocess.TimeoutExpired as e:
+        out = (e.stdout or b"").decode(errors="replace") + "\n[timeout]"
+        rc = -9
+    with open(logfile, "ab") as lf:
+        lf.write(out[-20000:].encode())
+    return rc, out
+
+
+def extract_tests(out):
+    """[(test name, test source, checked property)] for the failing checks (cover witnesses skipped)."""
+    tests = []
+    for m in re.finditer(r"```\s*\n(.*?)\n```", out, re.S):
+        block = m.group(1)
+        kind = re.search(r"Check for `(\w+)`: \"?(.*?)\"?\s*\n", block)
+        t = re.search(r"(#\[test\]\s*\nfn (kani_concrete_playback_\w+)\(\).*)", block, re.S)
+        if not t:
+            continue
+        if kind and kind.group(1) == "cover":
+            continue
+        tests.append((t.group(2), t.group(1), kind.group(2) if kind else ""))
+    return tests
+
+
+def playback(ws, h, test_name, test_src, logfile):
+    """Append the generated test to the scratch copy of the harness file and run it natively."""
+    hfile = os.path.join(ws.hdir, os.path.basename(h.file))
+    txt = open(hfile).read()
+    if test_name not in txt:
+        with open(hfile, "a") as f:
+            f.write("\n\n" + test_src + "\n")
+    cmd = ["cargo", "kani", "playback", "-Z", "concrete-playback", "-p", h.crate, "--", test_name]
+    rc, out = _sh(cmd, ws.repo, 3600, logfile)
+    ran = re.search(r"running \d+ test", out) is not None
+    failed = re.search(r"test result: FAILED|panicked at|test .*%s.* FAILED" % re.escape(test_name), out) is not None
+    passed = re.search(r"test result: ok\. 1 passed", out) is not None
+    m = re.search(r"panicked at ([^\n]*)\n([^\n]*)", out)
+    panic = (m.group(1) + " " + m.group(2)).strip() if m else ""
+    return ran, failed and not passed, panic, out[-3000:]
 
 
 def confirm_violation(ws, h, logfile):
+    from vcheck import kani_base
     d = os.path.join(REPLAY_DIR, h.prop)
     os.makedirs(d, exist_ok=True)
     path = os.path.join(d, h.name + ".json")
     rec = {"property": h.prop, "harness": h.name, "harness_file": os.path.basename(h.file),
-           "append_to": h.append_to, "failed_checks": h.unexplained, "created": time.strftime("%F %T")}
-    json.dump(rec, open(path, "w"), indent=1)
-    return path, True, "solver counterexample recorded"
+           "generated": not h.file.startswith(os.path.join(VERIF, "harness")),
+           "append_to": h.append_to, "crate": h.crate, "failed_checks": h.unexplained[:8],
+           "created": time.strftime("%F %T")}
+    if _done["n"] >= MAX_REPLAYS:
+        rec["native"] = "not replayed (replay budget of this run used up by earlier harnesses)"
+        json.dump(rec, open(path, "w"), indent=1)
+        return path, False, "not replayed: replay budget used"
+    _done["n"] += 1
+    cmd = kani_base(ws, h.crate) + ["--harness", h.name, "-Z", "concrete-playback", "--concrete-playback=print",
+                                    "--output-format", "terse"]
+    if h.resolved_unwindset:
+        cmd += ["--cbmc-args", "--unwindset", ",".join("%s:%d" % kv for kv in h.resolved_unwindset)]
+    rc, out = _sh(cmd, ws.repo, h.cap + 1200, logfile)
+    tests = extract_tests(out)
+    if not tests:
+        rec["native"] = "no concrete playback test was produced"
+        json.dump(rec, open(path, "w"), indent=1)
+        return path, False, "no concrete playback test produced"
+    note = "native run of the counterexample did not fail"
+    for test_name, test_src, what in tests[:3]:
+        ran, failed, panic, tail = playback(ws, h, test_name, test_src, logfile)
+        rec["playback_test"] = test_src
+        rec["checked"] = what
+        rec["native"] = {"ran": ran, "reproduced": failed, "panic": panic, "profile": "dev"}
+        json.dump(rec, open(path, "w"), indent=1)
+        if not ran:
+            return path, False, "native replay did not build/run"
+        if failed:
+            return path, True, "reproduced natively: " + panic[:200]
+    return path, False, note
 
 
 def replay_file(ws, path, logfile):
+    """Re-execute a recorded counterexample against /repo's current tree.  Exit 1 (and a VIOLATION
+    line) if it still reproduces, 0 if it no longer does, 2 if it cannot be run."""
+    import vcheck
     rec = json.load(open(path))
-    print(json.dumps(rec, indent=1))
+    ws.sync()
+    ws.overlay_manifest()
+    files, harnesses, _ = vcheck.collect_harnesses(rec["property"], ws)
+    hs = [h for h in harnesses if h.name == rec["harness"]]
+    if not hs or "playback_test" not in rec:
+        print("INCONCLUSIVE property=%s replay file has no playback test or the harness is gone" % rec["property"])
+        return 2
+    ws.install(files)
+    h = hs[0]
+    name = re.search(r"fn (kani_concrete_playback_\w+)", rec["playback_test"]).group(1)
+    ran, failed, panic, tail = playback(ws, h, name, rec["playback_test"], logfile)
+    if not ran:
+        print("INCONCLUSIVE property=%s native replay did not build/run" % rec["property"])
+        print(tail[-1500:])
+        return 2
+    if failed:
+        print("VIOLATION property=%s replay=%s" % (rec["property"], path))
+        print("  " + panic)
+        return 1
+    print("replay of %s no longer fails on the current tree" % rec["harness"])
     return 0
